@@ -91,13 +91,17 @@ def _check_netloc(netloc: str) -> None:
     # ignore characters already included
     # but not the surrounding text
     n = netloc.replace("@", "").replace(":", "").replace("#", "").replace("?", "")
+    # the brackets of an IP-literal are written as such; "[" or "]" must not
+    # appear through normalization (e.g. \uff3b), the parser would not read
+    # the resulting host back
+    n = n.replace("[", "").replace("]", "")
     normalized_netloc = unicodedata.normalize("NFKC", n)
     if n == normalized_netloc:
         return
     # Note that there are no unicode decompositions for the character '@' so
     # its currently impossible to have test coverage for this branch, however if the
     # one should be added in the future we want to make sure its still checked.
-    for c in "/?#@:":  # pragma: no branch
+    for c in "/?#@:[]":  # pragma: no branch
         if c in normalized_netloc:
             raise ValueError(
                 f"netloc '{netloc}' contains invalid "
